@@ -1,0 +1,81 @@
+//go:build verif
+
+package legacy
+
+import (
+	"context"
+	"sync"
+	"time"
+
+	"github.com/jcmoraisjr/haproxy-ingress/pkg/common/ingress/controller"
+	convtypes "github.com/jcmoraisjr/haproxy-ingress/pkg/converters/types"
+)
+
+// VerifLegacyEvents is the event path of the legacy controller: the real
+// k8scache.Notify filling the batch under construction and the real
+// k8scache.SwapChangedObjects handing it to a reconciliation. The update queue is
+// a stub that only counts the notifications Notify schedules.
+type VerifLegacyEvents struct {
+	c *k8scache
+	q *verifUpdateQueue
+}
+
+// VerifNewLegacyEvents builds a legacy k8scache holding only what Notify and
+// SwapChangedObjects use.
+func VerifNewLegacyEvents(globalConfigMapKey, tcpConfigMapKey string, waitBeforeUpdate time.Duration) *VerifLegacyEvents {
+	q := &verifUpdateQueue{}
+	return &VerifLegacyEvents{
+		c: &k8scache{
+			controller:         controller.VerifNewGenericController(),
+			globalConfigMapKey: globalConfigMapKey,
+			tcpConfigMapKey:    tcpConfigMapKey,
+			waitBeforeUpdate:   waitBeforeUpdate,
+			updateQueue:        q,
+			clear:              true,
+		},
+		q: q,
+	}
+}
+
+// Notify is k8scache.Notify, what the listers call on every event.
+func (v *VerifLegacyEvents) Notify(old, cur interface{}) { v.c.Notify(old, cur) }
+
+// SwapChangedObjects is k8scache.SwapChangedObjects, what a reconciliation calls.
+func (v *VerifLegacyEvents) SwapChangedObjects() *convtypes.ChangedObjects {
+	return v.c.SwapChangedObjects()
+}
+
+// Notifications is how many times the update queue was notified so far.
+func (v *VerifLegacyEvents) Notifications() int {
+	v.q.mu.Lock()
+	defer v.q.mu.Unlock()
+	return v.q.n
+}
+
+// Clear reads the flag telling that nothing arrived since the last swap.
+func (v *VerifLegacyEvents) Clear() bool {
+	v.c.stateMutex.RLock()
+	defer v.c.stateMutex.RUnlock()
+	return v.c.clear
+}
+
+type verifUpdateQueue struct {
+	mu sync.Mutex
+	n  int
+}
+
+func (q *verifUpdateQueue) Notify() {
+	q.mu.Lock()
+	defer q.mu.Unlock()
+	q.n++
+}
+func (q *verifUpdateQueue) Add(interface{})                     {}
+func (q *verifUpdateQueue) AddAfter(interface{}, time.Duration) {}
+func (q *verifUpdateQueue) Remove(interface{})                  {}
+func (q *verifUpdateQueue) Start(context.Context) error         { return nil }
+func (q *verifUpdateQueue) Clear()                              {}
+func (q *verifUpdateQueue) Run()                                {}
+func (q *verifUpdateQueue) RunWithContext(context.Context)      {}
+func (q *verifUpdateQueue) Len() int                            { return 0 }
+func (q *verifUpdateQueue) ShuttingDown() bool                  { return false }
+func (q *verifUpdateQueue) ShutDown()                           {}
